@@ -62,9 +62,11 @@ PAYLOADS = [
     "lambda x: VERIF_CANARY()", "re.match(VERIF_CANARY(), '')", "self._regexp(VERIF_CANARY())", "<>'+str(VERIF_CANARY())+'", ">='+VERIF_CANARY()+'",
     "<>it's", ">=o'clock", "='", "<'", "*'+VERIF_CANARY()+'*", "?' + VERIF_CANARY() + '?", "~*' + VERIF_CANARY() + '",
     '"""', '""";VERIF_CANARY();"""', 'q"""q', '"""+VERIF_CANARY()+"""', '"', '""', '" + VERIF_CANARY() + "', '\\"""',
+    "{titles}", "{functions}", "{sheets_size}", "{{titles}}", "a'+str(VERIF_CANARY())+'b", 'a"+str(VERIF_CANARY())+"b', "_xlfn.", "_xlws.", "_xlfn.IFS(1,2)",
+    "x_xlfn.y", "📊", "𝒳 = 𝒴", "\\ud83d", "\\U0001F4CA",
     "it's", "'", "''", "'''", "a'b'c", "\\\\", "{", "}", "{}", "%", "%s", "#", "# comment", "a\nb", "\t", " ", "' '", "None", "True", "x)", "(", "f(x)",
 ]
-ALPHABET = "abXY01 '\\\n#{}%()+,.:;=<>*?~!@$^&|[]_-/\"`é中"
+ALPHABET = "abXY01 '\\\n#{}%()+,.:;=<>*?~!@$^&|[]_-/\"`é中📊𝒳"
 LIT_ARG_FORMS = [('LEFT', '=LEFT({L},200)'), ('MID', '=MID({L},1,200)'), ('IF', '=IF(TRUE,{L},"no")'), ('IF2', '=IF(FALSE,"no",{L})'),
                  ('CONCATENATE', '=CONCATENATE("a",{L})'), ('IFERROR', '=IFERROR({L},1)'), ('amp', '="x"&{L}&"y"'), ('RIGHT', '=RIGHT({L},200)')]
 OTHER_ARG_FORMS = ['=SEARCH("q",{L})', '=SEARCH({L},"abc")', '=VALUE({L})', '=TEXT(1,{L})', '=COUNT({L})', '=IF({L}="a",1,2)', '=VLOOKUP({L},A1:B6,2,FALSE)',
@@ -387,6 +389,10 @@ def run_shard(spec, rec):
                 rec.fail(**f)
         hyp_run(strategy(), body, spec['examples'], (ID, spec['shard']), rec)
     else:
+        if spec['part'] == 0:
+            for c in combos():
+                for f in run_spec(c, rec):
+                    rec.fail(**f)
         # every payload once in every placement
         places = ['lit', 'lit-arg', 'lit-amp', 'other-arg', 'crit', 'crit-op', 'crit-amp', 'title', 'const']
         for pi, p in enumerate(PAYLOADS):
@@ -405,6 +411,15 @@ def run_shard(spec, rec):
                 for form in ((pi, pi + 3) if place in ('lit-arg', 'crit', 'crit-op', 'crit-amp', 'other-arg') else (0,)):
                     for f in run_spec({'strings': [{'s': s, 'place': place, 'form': form}], 'safety': False}, rec):
                         rec.fail(**f)
+
+
+def combos():
+    """two workbook texts that are harmless alone: a placeholder of the class template in a cell and a sheet title that reads as code"""
+    titles = ["a'+str(VERIF_CANARY())+'b", 'a"+str(VERIF_CANARY())+"b', "x' if VERIF_CANARY() else 'y", "t'+VERIF_CANARY()+'"]
+    for ph in ('{titles}', '{functions}', '{sheets_size}', '{name}', '{code}'):
+        for place in ('const', 'lit', 'lit-arg', 'crit'):
+            for i, t in enumerate(titles):
+                yield {'strings': [{'s': marker(0) + ph, 'place': place, 'form': i}, {'s': (marker(1) + t)[:31], 'place': 'title', 'form': 0}], 'safety': False}
 
 
 MATCHERS = {}
